@@ -708,14 +708,17 @@ func hash(seed maphash.Seed, x any) uint64 {
 	}
 
 	hash_Float := func(f float64) {
+		switch {
 		// if float is in int range and is integer number - hash it as integer
-		i  := int64(f)
-		f_ := float64(i)
-		if f_ == f {
-			hash_Int(i)
+		case -0x1p63 <= f && f < 0x1p63 && float64(int64(f)) == f:
+			hash_Int(int64(f))
+
+		// ditto for [2^63, 2^64): such float is equal to uint64 / big.Int of the same value
+		case 0x1p63 <= f && f < 0x1p64 && float64(uint64(f)) == f:
+			hash_Uint(uint64(f))
 
 		// else use raw float64 bytes representation for hashing
-		} else {
+		default:
 			hash_Uint(math.Float64bits(f))
 		}
 	}
